@@ -38,7 +38,7 @@ prop("C29",
 
 
 prop("C22",
-     units=["colcodec"],
+     units=["colcodec", "refarms"],
      level="proof",
      claim="number_to_column / column_to_number are mutually inverse bijections between [1,16384] and the letter strings A..XFD (first sentence of the statement)",
      assumptions=["units/std_str.rs: char::is_ascii_uppercase, String::insert behave as documented", "vstd's model of str::chars / String views"],
@@ -120,6 +120,30 @@ prop("C08",
      assumptions=["f64::is_nan / is_infinite behave as vstd's is_nan_spec / is_infinite_spec", "the literal 0.0 is finite (assume in two converters)",
                   "D5 shells: CalcResult/CellReferenceIndex/Cell/Worksheet around the guard fragments; update_cell/new_number stubs"],
      residual="numbers arriving through xlsx import / from_bytes (other crates / serialized data) are outside the scan")
+
+
+prop("C21",
+     units=["dates"],
+     scans=["date-offset-sites"],
+     level="proof",
+     claim="for EVERY serial s in [1, 2958465] from_excel_date(s) is the calendar day with day count s + EXCEL_DATE_BASE, "
+           "date_to_serial_number(d,m,y) is civil_days(y,m,d) - EXCEL_DATE_BASE exactly when the date exists, EXCEL_DATE_BASE and both range ends "
+           "agree with the Gregorian day count (by compute), so the two directions are mutually inverse on the whole range",
+     assumptions=["A-chrono: NaiveDate::from_ymd_opt / num_days_from_ce / + Duration::days implement the proleptic Gregorian day count civil_days (external crate, shells in units/dates.rs)"],
+     residual="WEEKDAY, the yyyy-mm-dd formatter/parser (string code), permissive DATE month/day wrapping (chrono Months/Days arithmetic)")
+prop("C28",
+     units=["select"],
+     level="proof",
+     claim="the selected-sheet index after a sheet move (selected_sheet_after_move) or deletion (selected_sheet_after_delete) is an existing sheet, "
+           "follows the sheet by identity, and the move map is an invertible permutation (undo/redo re-select the same sheet)",
+     assumptions=["callers pass the pre-operation sheet count / indices (call sites in delete_sheet, MoveSheet arms are not under contract)"],
+     residual="hide/unhide search loop, undo of DuplicateSheet/NewSheet arms, keyboard navigation and range selection in ui.rs")
+prop("C34",
+     units=["f4"],
+     level="proof",
+     claim="next_state follows exactly A1 -> $A$1 -> A$1 -> $A1 -> A1 and has period four (four_cycles composes the real function four times)",
+     assumptions=[],
+     residual="cycle_endpoint / cycle_token_text / cycle_reference (slice + iterator-adapter string code) are not under contract")
 
 
 def evidence(pid, tier, seed, results, scan_results, kani_results, violations, known_hits, undecided, wall):
